@@ -78,14 +78,7 @@ func ruleR04k(c *Ctx) {
 	// Go: the loop that calls Apply
 	nApply := 0
 	for _, st := range fh.Body.List {
-		applies := false
-		ast.Inspect(st, func(x ast.Node) bool {
-			if se, ok := x.(*ast.SelectorExpr); ok && se.Sel.Name == "Apply" {
-				applies = true
-			}
-			return true
-		})
-		if !applies {
+		if !appliesDirective(c, st) {
 			continue
 		}
 		nApply++
@@ -569,4 +562,53 @@ func ruleR04q(c *Ctx) {
 		})
 	}
 	c.floor("R04q", "places where the renderer stores or hands on the message bundle", 3, n)
+}
+
+// appliesDirective: the statement calls a print directive's Apply field, itself or through a helper of
+// soyhtml that is handed the directive (applyDirective(node, directive, value, args) and the like).
+func appliesDirective(c *Ctx, st ast.Node) bool {
+	p := c.pkg("soyhtml")
+	if p == nil {
+		return false
+	}
+	info := p.TypesInfo
+	hasApply := func(n ast.Node) bool {
+		found := false
+		ast.Inspect(n, func(x ast.Node) bool {
+			if se, ok := x.(*ast.SelectorExpr); ok && se.Sel.Name == "Apply" {
+				found = true
+			}
+			return true
+		})
+		return found
+	}
+	if hasApply(st) {
+		return true
+	}
+	byFunc := map[*types.Func]*ast.FuncDecl{}
+	for _, d := range c.allFuncDecls("soyhtml") {
+		if fn, ok := info.Defs[d.Name].(*types.Func); ok {
+			byFunc[fn] = d
+		}
+	}
+	applies := false
+	ast.Inspect(st, func(x ast.Node) bool {
+		call, ok := x.(*ast.CallExpr)
+		if !ok {
+			return true
+		}
+		d := byFunc[calleeFunc(call, info)]
+		if d == nil || d.Body == nil {
+			return true
+		}
+		for _, a := range call.Args {
+			if tv, ok := info.Types[a]; ok {
+				if _, tn, ok := relPkgOfType(tv.Type); ok && tn == "PrintDirective" && hasApply(d.Body) {
+					applies = true
+				}
+			}
+		}
+		return true
+	})
+	return applies
 }
